@@ -61,7 +61,11 @@ TRUSTED = ['z3 quantifier instantiation (MBQI / E-matching) on the prefix '
 
 
 def tasks(tier):
-    return ['factors', 'explicit', 'hmin', 'step', 'solver', 'canary']
+    # the computed step reaches the integrator only through
+    # Solver._get_timestep (C10): its contract -- on EVERY iteration the step
+    # is the freshly computed one, damped and clipped -- is re-proved here
+    return ['factors', 'explicit', 'hmin', 'step', 'solver', 'canary',
+            'dep:C10:timestep']
 
 
 # ------------------------------------------------------------ abstract arrays
@@ -306,6 +310,9 @@ def replay_cases(pick=None):
 
 # --------------------------------------------------------------------- tasks
 def run_task(task, ctx):
+    if task.startswith('dep:'):
+        from contracts import deps
+        return deps.run_dep(task, ctx)
     repo = Repo()
     m = repo.module(MOD)
     ctx.assume('ghost model of the particle-array list: see module docstring')
